@@ -389,7 +389,7 @@ class Ctx:
 # ------------------------------------------------------------------------------------------
 # frames
 # ------------------------------------------------------------------------------------------
-def snapshot(roots, depth=8, shapes=False):
+def snapshot(roots, depth=8, shapes=False, expand_shared=False):
     """object graph -> {path string: (id, summary value)} for frame checks"""
     out = {}
     seen = set()
@@ -424,6 +424,13 @@ def snapshot(roots, depth=8, shapes=False):
             out[path] = (id(o), ('ref',))
             return
         seen.add(id(o))
+        try:
+            _walk_children(o, path, d)
+        finally:
+            if expand_shared:
+                seen.discard(id(o))     # only ancestors stop the walk: shared objects are expanded at every place
+
+    def _walk_children(o, path, d):
         if isinstance(o, (list, tuple)):
             out[path] = (id(o), ('seq', len(o)))
             for i, x in enumerate(o):
